@@ -39,8 +39,7 @@ class C10(Check):
             'through the REAL request path for profiles default, junos (XSLT), alu (remove_namespaces), sros (pass-through): reply.xml vs the '
             'text the server sent, data_ele / data_xml vs the <data> child, and for transforming profiles the returned tree vs the model and vs '
             'the shape of the server\'s reply parsed with xml.etree, also after the caller has printed / queried the reply object; huge text node / deep tree with huge_tree on. '
-            'The reply object printed / queried before its content is read; xpath with the caller\'s own prefix map; trees as deep as the huge-tree parser reads on every profile, four sessions receiving them concurrently, vendor operations on a manager with huge_tree on; reply.xml over a real Unix socket. '
-            'Non-trivial = a reply whose <data> has at least one element; distinct by case.')
+            'The reply object printed / queried before its content is read; xpath with the caller\'s own prefix map; trees as deep as the huge-tree parser reads on every profile, four sessions receiving them concurrently, vendor operations on a manager with huge_tree on; reply.xml over a real Unix socket. Non-trivial = a reply whose <data> has at least one element; distinct by case.')
     TRUST = ['libxml2 / libxslt parsing, XSLT engine and huge-tree limits (environment; exercised for real, not modelled)']
     ASSUMPTIONS = ['two attributes of one element with the same local name in different namespaces collapse under namespace stripping (not generated)']
 
